@@ -682,6 +682,7 @@ def gen_extract_case(rng):
             at = rng.randint(0, len(case["members"])) if case["class"] != "benign" else len(case["members"])
             if rng.random() < 0.4:
                 case["members"] = extra                      # nothing but members aimed at the staged names
+                case["planted"] = False
             else:
                 case["members"] = case["members"][:at] + extra + case["members"][at:]
         case["class"] = "staged+" + case["class"]
